@@ -65,6 +65,10 @@ def child_definition(kind, W):
         return {"StartAt": "Wt", "States": {"Wt": {"Type": "Wait", "Seconds": SLOW, "Next": "C2"}, "C2": T("childfn2", End=True)}}
     if kind == "slow_task":
         return {"StartAt": "C1", "States": {"C1": T("childslow", Next="C2"), "C2": T("childfn2", End=True)}}
+    if kind == "slow_longform_task":
+        # the Task the child is blocked on is written in the long form (Resource ...:rpcmessage:invoke, Parameters = {FunctionName, Payload}); its wrapped result is discarded
+        return {"StartAt": "C1", "States": {"C1": {"Type": "Task", "Resource": "arn:aws:states:local::rpcmessage:invoke", "Parameters": {"FunctionName": W.fn_arn("childslow"), "Payload.$": "$"},
+                                                   "ResultPath": None, "Next": "C2"}, "C2": T("childfn2", End=True)}}
     if kind == "fanout_then_slow_task":
         # the child has completed a Parallel state earlier and is blocked on a top-level Task when the parent lets go of it
         return {"StartAt": "Par0", "States": {
@@ -92,7 +96,7 @@ def child_result(kind, inp):
         return "FAILED", "ChildErr"
     if kind == "fail_state":
         return "FAILED", "ChildFail"
-    if kind == "slow_wait":
+    if kind in ("slow_wait", "slow_longform_task"):
         return "SUCCEEDED", {"second": inp}
     if kind in ("slow_task", "wait_then_slow_task", "fanout_then_slow_task"):
         return "SUCCEEDED", {"second": {"late": True}}
@@ -416,10 +420,12 @@ def run_token(sc):
     W.install()
     import pika
     fails = []
-    w = W.World(seed=15, tick=0.0)
+    w = W.World(seed=15, tick=0.0, store="redis" if sc.get("via_other") else "file")     # two instances share the Redis-backed stores
     w.eager_time = False
     try:
         eng = w.add_engine("A")
+        # the callback may be served by another instance than the one that launched the task (a load balancer in front of the API): the token names the reply queue to use
+        api_eng = w.add_engine("B") if sc.get("via_other") else eng
         form = sc["form"]
         T = sc.get("timeout")
         tasks = []          # model: dict(exec, attempt, token, t, deadline, state, result)
@@ -494,7 +500,7 @@ def run_token(sc):
                 if act.get("cause") is not None:
                     params["cause"] = act["cause"]
             before = engine_publishes()
-            status, body = eng.api(action, params)
+            status, body = api_eng.api(action, params)
             published = engine_publishes() - before
             wf = decode_token(tok) is not None
             target = next((t for t in tasks if t["token"] == tok), None)
@@ -690,7 +696,7 @@ def strategies():
         "form": st.sampled_from(["async", "sync", "sync", "sync2", "sync2", "sdk_sync"]),
         "parent_type": st.sampled_from(["STANDARD", "STANDARD", "STANDARD", "EXPRESS"]),
         "child_type": st.sampled_from(["STANDARD", "STANDARD", "EXPRESS"]),
-        "child": st.sampled_from(["succeed", "succeed", "two_step", "fail_task", "fail_state", "slow_wait", "slow_task", "slow_nested", "wait_then_slow_task", "fanout_then_slow_task"]),
+        "child": st.sampled_from(["succeed", "succeed", "two_step", "fail_task", "fail_state", "slow_wait", "slow_task", "slow_nested", "wait_then_slow_task", "fanout_then_slow_task", "slow_longform_task"]),
         "child_exists": st.sampled_from([True] * 9 + [False]),
         "child_delay": st.sampled_from([0, 0.5, 3, 8]),
         "shape": st.sampled_from(["plain", "plain", "plain", "parallel", "parallel", "map"]),
@@ -722,6 +728,7 @@ def strategies():
     token = st.fixed_dictionaries({
         "family": st.just("token"), "form": st.sampled_from(["invoke", "invoke", "child"]), "timeout": st.sampled_from([None, 6, 6]),
         "retry": st.booleans(), "execs": execs, "trunc": st.sampled_from([1, 2, 3, 5, 9, 30]), "schedule": sched,
+        "via_other": st.sampled_from([False, False, True]),
     }).map(fix_token)
     # second launch at d1+interval, still running at the first launch's deadline T, and over before its own: d1+interval < T < d1+interval+d2, d2 < T
     relaunch = st.fixed_dictionaries({"family": st.just("relaunch"), "form": st.sampled_from(["sync", "sync2", "sdk_sync"]), "name": st.sampled_from([None, "kid", "kid"]),
@@ -732,6 +739,8 @@ def strategies():
 
 def fix_child(sc):
     sc = dict(sc)
+    if sc["child"] == "fanout_then_slow_task" and not isinstance(sc["child_input"], dict):
+        sc["child_input"] = {"a": 1}    # the child places its Parallel state's result under $.par: its input has to be an object
     if sc["shape"] == "map":
         sc["name"] = None
     if sc["shape"] != "parallel":
@@ -806,7 +815,7 @@ def classes(sc):
         if any(sc.get("schedule", ())):
             c.append("schedule-deviating")
         return c
-    c = ["family-token", "form-" + sc["form"], "execs-%d" % len(sc["execs"])] + (["retry"] if sc["retry"] else []) + (["timeout"] if sc["timeout"] else [])
+    c = ["family-token", "form-" + sc["form"], "execs-%d" % len(sc["execs"])] + (["retry"] if sc["retry"] else []) + (["timeout"] if sc["timeout"] else []) + (["callback-served-by-another-instance"] if sc.get("via_other") else [])
     for e in sc["execs"]:
         for acts in e["attempts"]:
             for a in acts:
@@ -869,7 +878,7 @@ def main(tier, seed, replay=None):
     # directed: a synchronous child that is past an elapsed Wait and blocked on a Task when the parent lets go of it (time-out, failing sibling)
     for form in ("sync", "sync2", "sdk_sync"):
         for shape, extra_ in (("plain", {"timeout": 5}), ("parallel", {"timeout": None, "sib_ok": False, "sib_delay": 6}), ("parallel", {"timeout": 5, "sib_ok": True, "sib_delay": 0.25})):
-          for ckind in ("wait_then_slow_task", "fanout_then_slow_task"):
+          for ckind in ("wait_then_slow_task", "fanout_then_slow_task", "slow_longform_task"):
             sc = dict({"family": "child", "form": form, "parent_type": "STANDARD", "child_type": "EXPRESS" if form == "sdk_sync" else "STANDARD", "child": ckind, "child_exists": True,
                        "child_delay": 0, "shape": shape, "child_input": {"a": 1}, "name": None, "resource_region": "local", "schedule": []}, **extra_)
             try:
